@@ -4,6 +4,7 @@ import (
 	"bytes"
 	"fmt"
 	"strconv"
+	"time"
 
 	"github.com/robfig/soy/data"
 	"github.com/robfig/soy/soyhtml"
@@ -39,7 +40,42 @@ func init() {
 	})
 }
 
+type c20Money struct{ Cents int }
+
+func (m c20Money) MarshalValue() data.Value { return data.String("$" + strconv.Itoa(m.Cents)) }
+
+// corners of the conversion itself that the generated values do not reach: the zero StructOptions (the "other
+// setting": TimeFormat empty = ISO-8601 by its documentation), nil pointers to types with a value-receiver marshaler
+func directC20corners(rep *Report) {
+	tm := time.Date(2021, 3, 4, 5, 6, 7, 0, time.UTC)
+	check := func(key, what string, f func() data.Value, want data.Value) {
+		var got data.Value
+		c := guarded(5e9, func() { got = f() })
+		rep.Evaluations++
+		if c != "" || got == nil || !(got.Equals(want) && fmt.Sprintf("%T", got) == fmt.Sprintf("%T", want)) {
+			rep.Violations = append(rep.Violations, Viol{Key: "c20corner:" + key, What: what, Req: req("c20corner", hxs(key)), Impl: c + " " + fmt.Sprintf("%#v", got), Want: fmt.Sprintf("%#v", want)})
+		} else {
+			rep.DistinctNT++
+		}
+	}
+	for _, lc := range []bool{false, true} {
+		opts := data.StructOptions{LowerCamel: lc} // TimeFormat left empty
+		check("time-empty-format", "a time value converted under StructOptions with an empty TimeFormat is not its ISO-8601 text", func() data.Value { return data.NewWith(opts, tm) }, data.String(tm.Format(time.RFC3339)))
+		check("time-empty-format-nested", "a time value inside a slice, converted with an empty TimeFormat, is not its ISO-8601 text", func() data.Value { return data.NewWith(opts, []time.Time{tm}).(data.List)[0] }, data.String(tm.Format(time.RFC3339)))
+	}
+	var nilMoney *c20Money
+	check("nil-marshaler-pointer", "a nil pointer to a type with a value-receiver MarshalValue does not convert to null", func() data.Value { return data.New(nilMoney) }, data.Null{})
+	check("nil-marshaler-pointer-in-struct", "a nil pointer field of a marshaler type does not convert to null", func() data.Value {
+		return data.New(struct{ Price *c20Money }{nil}).(data.Map)["price"]
+	}, data.Null{})
+	check("nil-marshaler-pointer-in-slice", "a nil pointer to a marshaler in a slice does not convert to null", func() data.Value {
+		return data.New([]*c20Money{{Cents: 5}, nil}).(data.List)[1]
+	}, data.Null{})
+	check("marshaler-pointer", "a non-nil pointer to a marshaler converts through MarshalValue", func() data.Value { return data.New(&c20Money{Cents: 7}) }, data.String("$7"))
+}
+
 func directC20render(g *G, rep *Report) {
+	directC20corners(rep)
 	src := "{namespace cr}\n/**\n * @param? count\n * @param? name\n * @param? ratio\n * @param? ok\n * @param? inner\n * @param? innerPtr\n * @param? items\n * @param? byName\n * @param? v\n */\n{template .t}\n" +
 		"count={$count}/{isNonnull($count)} name={$name}/{isNonnull($name)} ratio={$ratio}/{isNonnull($ratio)} ok={$ok}/{isNonnull($ok)} " +
 		"inner={$inner?.label}:{$inner?.weight}/{isNonnull($inner)} ptr={$innerPtr?.label}/{isNonnull($innerPtr)} items={if $items}{foreach $i in $items}[{$i.label}{$i.weight}]{/foreach}{/if}/{isNonnull($items)} " +
